@@ -72,7 +72,7 @@ def c15_1(c: Ctx) -> None:
         c.fail(u, 'the re-check loop can be left without re-evaluating the idle test', 'wait_until_idle returns from inside the re-check loop without the final test', node=head.ast, witness=c.path(head, p))
     # (b) timeout sources
     raises = [n for n in g.live_nodes() if n.kind == 'raise' and any(e.exc is not None and e.exc.name == 'TimeoutError' for e in n.succ)]
-    facts = Facts(lambda a: a == 'timeout', cg=c.cg, unit=u)
+    facts = Facts(lambda a: a.isidentifier(), cg=c.cg, unit=u)
     for rn in raises:
         pth = q.guard_search(g, rn, 'timeout is not None', facts)
         if pth is None:
@@ -239,6 +239,15 @@ def c15_4(c: Ctx) -> None:
     'the bus non-idle')
 def c15_5(c: Ctx) -> None:
     escape_before_mark(c, lambda t: t.name != 'CancelledError', 'the event stays pending in the history forever: events_pending is never empty and wait_until_idle never returns')
+
+
+
+@ob('C15.7', 'SHAPE/DOM', 'after a handler timeout no result below it is left pending at any depth (same obligation as C10.4): an event left started/pending forever keeps the bus non-idle '
+    'and wait_until_idle() never returns')
+def c15_7(c: Ctx) -> None:
+    from .c10 import c10_4
+
+    c10_4(c)
 
 
 OBLIGATIONS = ob.obs
